@@ -785,7 +785,31 @@ class Interp:
         return out
 
     def ev_JoinedStr(self, node, env):
-        return "<fstring>"
+        out = []
+        for v in node.values:
+            if isinstance(v, ast.Constant):
+                out.append(str(v.value))
+                continue
+            try:
+                x = self.ev(v.value, env)
+            except Unsupported:
+                return "<fstring>"
+            if isinstance(x, Fraction) and x.denominator == 1:
+                x = int(x)
+            if isinstance(x, bool) or not isinstance(x, (int, str)):
+                return "<fstring>"
+            spec = ""
+            if v.format_spec is not None:
+                if not all(isinstance(q, ast.Constant) for q in v.format_spec.values):
+                    return "<fstring>"
+                spec = "".join(str(q.value) for q in v.format_spec.values)
+            if v.conversion == 114:
+                x = repr(x)
+            try:
+                out.append(format(x, spec))
+            except (ValueError, TypeError):
+                return "<fstring>"
+        return "".join(out)
 
     def ev_Tuple(self, node, env):
         return tuple(self._elts(node.elts, env))
@@ -794,31 +818,53 @@ class Interp:
         return self._elts(node.elts, env)
 
     def ev_Dict(self, node, env):
-        return {_hashable(self.ev(k, env)): self.ev(v, env)
-                for k, v in zip(node.keys, node.values)}
+        out = {}
+        for k, v in zip(node.keys, node.values):
+            if k is None:                       # **mapping
+                extra = self.ev(v, env)
+                if not isinstance(extra, dict):
+                    raise Unsupported("** of a non-dictionary")
+                out.update(extra)
+            else:
+                out[_hashable(self.ev(k, env))] = self.ev(v, env)
+        return out
 
-    def ev_ListComp(self, node, env):
-        out = []
+    def _comprehend(self, node, env, emit):
+        """One scope for the whole comprehension, as in python: a function created in it sees
+        the loop variables as they are when it is *called* (late binding)."""
+        scope = dict(env)
 
-        def rec(k, sub):
+        def rec(k):
             if k == len(node.generators):
-                out.append(self.ev(node.elt, sub))
+                emit(scope)
                 return
             g = node.generators[k]
-            it = self.ev(g.iter, sub)
+            it = self.ev(g.iter, scope)
             if isinstance(it, dict):
                 it = list(it)
             if not isinstance(it, (list, tuple, range, str)):
                 raise Unsupported("comprehension over " + type(it).__name__)
             for x in it:
-                sub2 = dict(sub)
-                self.assign(g.target, x, sub2, node)
-                if all(self.truth(self.ev(c, sub2), c) for c in g.ifs):
-                    rec(k + 1, sub2)
-        rec(0, dict(env))
+                self.assign(g.target, x, scope, node)
+                if all(self.truth(self.ev(c, scope), c) for c in g.ifs):
+                    rec(k + 1)
+        rec(0)
+
+    def ev_ListComp(self, node, env):
+        out = []
+        self._comprehend(node, env, lambda sc: out.append(self.ev(node.elt, sc)))
         return out
 
     ev_GeneratorExp = ev_ListComp
+    ev_SetComp = ev_ListComp
+
+    def ev_DictComp(self, node, env):
+        out = {}
+
+        def emit(sc):
+            out[_hashable(self.ev(node.key, sc))] = self.ev(node.value, sc)
+        self._comprehend(node, env, emit)
+        return out
 
     def ev_IfExp(self, node, env):
         return self.ev(node.body if self.truth(self.ev(node.test, env), node.test)
